@@ -28,6 +28,20 @@ def _counter_term(n):
 
 def discharge(F, inst, ev, kind):
     """(rule, detail) or (None, reason)"""
+    rule, detail = _discharge(F, inst, ev, kind)
+    if rule is None:
+        r2, d2 = discharge_concrete(F, inst, ev, kind)
+        if r2 is not None:
+            return r2, d2
+        r3, d3 = discharge_interval(F, inst, ev, kind)
+        if r3 is not None:
+            return r3, d3
+        if d3:
+            detail = "%s; %s" % (detail, d3)
+    return rule, detail
+
+
+def _discharge(F, inst, ev, kind):
     fn = hir_fn_for(F, inst)
     if fn is None:
         return None, "function body not found"
@@ -107,6 +121,176 @@ def discharge(F, inst, ev, kind):
             return None, "int_in_range requires a non-empty range; the bounds are not constants of this configuration"
         return None, "cannot locate the int_in_range call in typed HIR"
     return None, "no discharge rule for " + kind
+
+
+RANGES = {"u8": (0, 255), "u16": (0, 65535), "u32": (0, 2 ** 32 - 1), "u64": (0, 2 ** 64 - 1), "usize": (0, 2 ** 32 - 1),
+          "i8": (-128, 127), "i16": (-32768, 32767), "i32": (-2 ** 31, 2 ** 31 - 1), "i64": (-2 ** 63, 2 ** 63 - 1), "isize": (-2 ** 31, 2 ** 31 - 1)}
+
+
+def concrete_summary(F, fn):
+    """path summaries of a small function whose loops all run concretely (sym.try_count: counters that are literals before the
+    loop and after every iteration): (Sym, paths) or None.  Cached per function."""
+    cache = F.__dict__.setdefault("_concrete_summary", {})
+    if fn["id"] in cache:
+        return cache[fn["id"]]
+    from . import sym as S
+    res = None
+    try:
+        sy = S.Sym(F, fn, inline=lambda path, node: False)
+        paths = sy.run()
+        if paths and all(p.loops == 0 for p in paths):
+            res = (sy, paths)
+    except S.TooManyPaths:
+        res = None
+    cache[fn["id"]] = res
+    return res
+
+
+def discharge_concrete(F, inst, ev, kind):
+    """B-concrete: in every evaluation of the construct on the function's (concretely unrolled) paths the operands are literals:
+    an index below the length of the constant array it indexes, an arithmetic result within the type's range"""
+    fn = hir_fn_for(F, inst)
+    if fn is None or (inst.get("pv") or "") != "user":
+        return None, ""
+    if kind not in ("assert:bounds", "assert:overflow:Add", "assert:overflow:Sub", "assert:overflow:Mul"):
+        return None, ""
+    cs = concrete_summary(F, fn)
+    if cs is None:
+        return None, "the function's loops do not run concretely"
+    sy, _paths = cs
+    from .oblig_mono import _sp
+    want = _sp(ev.get("sp"))
+
+    def covers(sp):
+        have = _sp(sp)
+        return want and have and have[0] == want[0] and have[1] <= want[1] and want[2] <= have[2] or (want and have and have[0] == want[0] and want[1] <= have[1] and have[2] <= want[2])
+
+    if kind == "assert:bounds":
+        seen = [x for sp, xs in sy.indexed.items() if covers(sp) for x in xs]
+        if seen and all(n is not None and i[0] == "lit" and isinstance(i[1], int) and 0 <= i[1] < n for n, i in seen):
+            return "B-concrete", "index values %s into a constant array of %d elements on all %d evaluations" % (sorted({i[1] for _, i in seen}), seen[0][0], len(seen))
+        return None, "an index that is not a literal below the array length on some evaluation"
+    nodes = [x for x in node_at(fn, ev["sp"]) if x.get("k") in ("binary", "assignop")]
+    ty = ((nodes[0].get("ty") if nodes and nodes[0].get("k") == "binary" else ((nodes[0].get("l") or {}).get("ty") if nodes else "")) or "").strip("&")
+    rng = RANGES.get(ty)
+    seen = [x for sp, xs in sy.arith.items() if covers(sp) for x in xs]
+    if rng and seen:
+        vals = []
+        for op, l, r in seen:
+            if not (l[0] == "lit" and r[0] == "lit" and isinstance(l[1], int) and isinstance(r[1], int) and not isinstance(l[1], bool) and not isinstance(r[1], bool)):
+                return None, "an operand that is not a literal on some evaluation"
+            vals.append(l[1] + r[1] if op == "+" else l[1] - r[1] if op == "-" else l[1] * r[1])
+        if all(rng[0] <= v <= rng[1] for v in vals):
+            return "B-concrete", "results %s on all %d evaluations, within %s" % (sorted(set(vals))[:6], len(vals), ty)
+    return None, "arithmetic whose operands are not literals on every evaluation"
+
+
+def interval(t, ptypes):
+    """(lo, hi) of an integer term from the ranges of the parameter types it is built from, or None: literals, parameters,
+    lossless From conversions, casts, + - * / % >> & min max.  (+ - * are exact because each of them is an overflow obligation of its
+    own that must be discharged too; `<<` silently drops bits and is not interpreted.)"""
+    k = t[0]
+    if k == "lit" and isinstance(t[1], int) and not isinstance(t[1], bool):
+        return (t[1], t[1])
+    if k == "param":
+        return RANGES.get(ptypes.get(t[1], ""))
+    if k == "copy":
+        return interval(t[1], ptypes)
+    if k == "cast":
+        inner = interval(t[1], ptypes)
+        rng = RANGES.get((t[2] or "").strip("&"))
+        if rng is None:
+            return None
+        if inner is not None and rng[0] <= inner[0] and inner[1] <= rng[1]:
+            return inner
+        return rng
+    if k == "call" and len(t[2]) == 1 and "convert::num::" in t[1] and t[1].endswith("::from"):
+        return interval(t[2][0], ptypes)
+    if k == "call" and len(t[2]) == 2 and t[1].split("::")[-1] in ("min", "max") and ("cmp::Ord" in t[1] or "core::cmp::" in t[1]):
+        a, b = interval(t[2][0], ptypes), interval(t[2][1], ptypes)
+        if t[1].split("::")[-1] == "min":
+            his = [x[1] for x in (a, b) if x is not None]
+            los = [x[0] for x in (a, b) if x is not None]
+            if a is not None and b is not None:
+                return (min(los), min(his))
+            return None
+        if a is not None and b is not None:
+            return (max(a[0], b[0]), max(a[1], b[1]))
+        return None
+    if k == "bin":
+        op = t[1]
+        a, b = interval(t[2], ptypes), interval(t[3], ptypes)
+        if a is None or b is None:
+            return None
+        if op == "+":
+            return (a[0] + b[0], a[1] + b[1])
+        if op == "-":
+            return (a[0] - b[1], a[1] - b[0])
+        if op == "*":
+            c = [a[0] * b[0], a[0] * b[1], a[1] * b[0], a[1] * b[1]]
+            return (min(c), max(c))
+        nonneg = a[0] >= 0 and b[0] >= 0
+        if op == ">>" and nonneg and b[0] == b[1] and b[0] < 128:
+            return (a[0] >> b[0], a[1] >> b[0])
+        if op == "&" and nonneg:
+            return (0, min(a[1], b[1]))
+        if op == "%" and nonneg and b[0] > 0:
+            return (0, min(a[1], b[1] - 1))
+        if op == "/" and nonneg and b[0] > 0:
+            return (a[0] // b[1], a[1] // b[0])
+    return None
+
+
+def discharge_interval(F, inst, ev, kind):
+    """B-interval: the operands' value ranges, derived from the parameter types through the arithmetic written in the function,
+    keep every evaluation of the construct within the type's range / the constant array's length"""
+    fn = hir_fn_for(F, inst)
+    if fn is None or (inst.get("pv") or "") != "user":
+        return None, ""
+    if kind not in ("assert:bounds", "assert:overflow:Add", "assert:overflow:Sub", "assert:overflow:Mul"):
+        return None, ""
+    cache = F.__dict__.setdefault("_interval_summary", {})
+    if fn["id"] not in cache:
+        from . import sym as S
+        try:
+            sy = S.Sym(F, fn, inline=lambda path, node: False)
+            sy.run()
+            cache[fn["id"]] = sy
+        except S.TooManyPaths:
+            cache[fn["id"]] = None
+    sy = cache[fn["id"]]
+    if sy is None:
+        return None, ""
+    ptypes = {}
+    for p, ty in zip(fn.get("params") or [], fn.get("inputs") or []):
+        b = H.pat_bindings(p)
+        if len(b) == 1 and p.get("k") == "bind":
+            ptypes[b[0][0]] = ty
+    from .oblig_mono import _sp
+    want = _sp(ev.get("sp"))
+
+    def covers(sp):
+        have = _sp(sp)
+        return bool(want and have and have[0] == want[0] and (have[1] <= want[1] and want[2] <= have[2] or want[1] <= have[1] and have[2] <= want[2]))
+
+    if kind == "assert:bounds":
+        seen = [x for sp, xs in sy.indexed.items() if covers(sp) for x in xs]
+        ivs = [(n, interval(i, ptypes)) for n, i in seen]
+        if seen and all(n is not None and iv is not None and 0 <= iv[0] and iv[1] < n for n, iv in ivs):
+            return "B-interval", "index within %s for a constant array of %d elements" % (sorted({iv for _, iv in ivs}), ivs[0][0])
+        return None, "the index's value range %s is not within the array" % ([iv for _, iv in ivs][:2],)
+    nodes = [x for x in node_at(fn, ev["sp"]) if x.get("k") in ("binary", "assignop")]
+    ty = ((nodes[0].get("ty") if nodes and nodes[0].get("k") == "binary" else ((nodes[0].get("l") or {}).get("ty") if nodes else "")) or "").strip("&")
+    rng = RANGES.get(ty)
+    if ty == "usize" or ty == "isize":
+        rng = RANGES["u32"] if ty == "usize" else RANGES["i32"]      # the narrowest usize of a supported target
+    seen = [x for sp, xs in sy.arith.items() if covers(sp) for x in xs]
+    if rng and seen:
+        ivs = [interval(("bin", op, l, r), ptypes) for op, l, r in seen]
+        if all(iv is not None and rng[0] <= iv[0] and iv[1] <= rng[1] for iv in ivs):
+            return "B-interval", "result within %s, inside %s" % (sorted(set(ivs))[:3], ty)
+        return None, "the result's value range %s is not within %s" % (ivs[:2], ty)
+    return None, ""
 
 
 def _const_int(F, n):
